@@ -98,7 +98,7 @@ class ESP:
         fr = Frame(dm=dm, points=points, nuc=nuc, Z=Z)
         paths = M.paths(body)
         fr.check(M, "esp")
-        ok = calls.every(lambda cs: len(cs) == 1 and cs[0][0] is basis and cs[0][1] is points and cs[0][3] is U)
+        ok = calls.every(lambda cs: len(cs) >= 1 and all(c[0] is basis and c[1] is points and c[3] is U for c in cs))
         M.true("esp/pre@point_charge_integral/args", ok, "basis, points, transform forwarded")
         if calls:
             q = calls[0][2]
@@ -169,3 +169,64 @@ class ESP:
                 M.raises("esp/rejects/" + name, fn, (TypeError, ValueError))
                 M.true("esp/rejects/%s/errstate" % name, np.geterr() == err0, "numpy error state after the raising call: %s -> %s" % (err0, np.geterr()))
                 np.seterr(**err0)
+
+
+class ESPInline:
+    """the same law with NOTHING replaced except the Boys function (so it does not depend on how
+    electrostatic_potential organises its calls): with threshold 0 and no point on a nucleus,
+        esp(basis, D, R, R_A, Z)[n] = sum_A Z_A / |R_n - R_A|  +  sum_ab D_ab * point_charge_integral(basis, R, ones)[a, b, n]
+    (point_charge_integral carries the sign of the charge: unit positive charges give minus the electronic integrals),
+    where point_charge_integral is the real routine, proved against the specification by the C03 contracts; with a
+    transformation both sides use the transformed basis."""
+
+    function = "gbasis.evals.electrostatic_potential.electrostatic_potential (inline: real point_charge_integral, kernels, assembly)"
+    sparse = True
+
+    def shapes(self, tier):
+        out = [dict(types=["cartesian", "cartesian"], transform=None), dict(types=["spherical", "cartesian"], transform="rect"),
+               dict(types=["cartesian", "cartesian"], transform="eye")]
+        if tier == "thorough":
+            out += [dict(types=["spherical", "spherical"], transform="square"), dict(types=["cartesian", "spherical"], transform=None, nuc=2)]
+        return out
+
+    def run(self, shape, M):
+        from .coulomb import boys_stub
+
+        esp = M.mods["gbasis.evals.electrostatic_potential"]
+        pc = M.mods["gbasis.integrals.point_charge"]
+        types = shape["types"]
+        basis = build_shells(M, [dict(l=i, M=1, type=t) for i, t in enumerate(types)])
+        ncont = sum(s.norm_cont.shape[0] * (s.num_cart if t == "cartesian" else s.num_sph) for s, t in zip(basis, types))
+        tr = shape["transform"]
+        if tr == "eye":
+            U = M.array(np.array([[1 if i == j else 0 for j in range(ncont)] for i in range(ncont - 1)], dtype=object)) if M.symbolic else np.eye(ncont - 1, ncont)
+        elif tr == "rect":
+            U = M.vec("U", (ncont - 1, ncont))
+        elif tr == "square":
+            U = M.vec("U", (ncont, ncont))
+        else:
+            U = None
+        korb = ncont if U is None else U.shape[0]
+        dm = sym_dm(M, korb)
+        A = shape.get("nuc", 1)
+        points = M.vec("P", (1, 3))
+        nuc = M.array(np.array([points[0] - M.vec("D%d" % a, 3) for a in range(A)], dtype=object))
+        Z = M.vec("Z", A)
+        boys = boys_stub(M)
+        with bind.patched((pc.PointChargeIntegral, "boys_func", staticmethod(boys))):
+            got = esp.electrostatic_potential(basis, dm, points, nuc, Z, transform=U, threshold_dist=0.0)
+            ones = M.array(np.array([1], dtype=object)) if M.symbolic else np.array([1.0])
+            V = pc.point_charge_integral(basis, points, ones, transform=U)
+        M.true("esp_inline/shape", tuple(np.shape(got)) == (1,) and tuple(np.shape(V)) == (korb, korb, 1), "%s %s" % (np.shape(got), np.shape(V)))
+        SF = M.SF
+        sV, sdm, sZ, sp, sn = M.to_spec(V), M.to_spec(dm), M.to_spec(Z), M.to_spec(points), M.to_spec(nuc)
+        tot = SF.num(0)
+        for a in range(A):
+            d2 = SF.num(0)
+            for x in range(3):
+                d2 = d2 + (sp[0, x] - sn[a, x]) * (sp[0, x] - sn[a, x])
+            tot = tot + sZ[a] / SF.sqrt(d2)
+        for i in range(korb):
+            for j in range(korb):
+                tot = tot + sdm[i, j] * sV[i, j, 0]
+        M.eq("esp_inline/out", got[0], tot)
